@@ -30,6 +30,38 @@ def _lookup_warning(eng, st, args, kwargs):
     return [(st, VConst(("warning-class",)))]
 
 
+# the callee contract assumed above is verified here: lookup_warning is total on the Liquid error classes
+for _cls in LIQUID_ERRORS:
+    def _mk_lw(cls):
+        @contract("liquid.exceptions:lookup_warning", prop="C03", name=f"lookup_warning[{cls}]")
+        def lw(c):
+            c.call(VExcClass(cls))
+            c.raises()
+            c.ensures("a-warning-class-for-every-liquid-error-class", lambda r: z3.BoolVal(not isinstance(r.value, VNone)))
+            c.replay("code", code=REPLAY_WARN)
+    _mk_lw(_cls)
+
+
+REPLAY_WARN = r'''
+def run(m):
+    import warnings, inspect
+    import liquid.exceptions as ex
+    from liquid import Environment, Mode
+    bad = []
+    for name, cls in inspect.getmembers(ex, inspect.isclass):
+        if issubclass(cls, ex.LiquidError) and not issubclass(cls, getattr(ex, "LiquidInterrupt", ())):
+            with warnings.catch_warnings(record=True) as w:
+                warnings.simplefilter("always")
+                try:
+                    Environment(tolerance=Mode.WARN).error(cls("x", token=None))
+                    if len(w) != 1:
+                        bad.append((name, f"{len(w)} warnings"))
+                except BaseException as e:
+                    bad.append((name, type(e).__name__))
+    return {"violated": bool(bad), "observed": bad[:4], "witness": "warn-mode-error-class"}
+'''
+
+
 def _error_contract(target, mk_self, label):
     for m, cls in [(m, cls) for m in MODES for cls in (LIQUID_ERRORS if m == "WARN" else ["LiquidSyntaxError", "UndefinedError"])]:
         def _mk(m, cls):
@@ -193,6 +225,33 @@ def warning_sites():
     obs.append(flow.ob("warnings-only-from-error-routers", bool(sites) and all(f == "error" for _m, f in sites), str(sites)))
     return obs
 
+
+parse_block_guard_contract("C03", lambda: REPLAY_NESTING)
+
+REPLAY_NESTING = r'''
+def run(m):
+    from liquid import Environment, Mode
+    from liquid.exceptions import LiquidError, BlockNestingError
+    bad = []
+    for depth in (40, 700):
+        src = "{% if true %}" * depth + "x" + "{% endif %}" * depth
+        for mode in (Mode.LAX, Mode.WARN):
+            import warnings
+            with warnings.catch_warnings():
+                warnings.simplefilter("ignore")
+                try:
+                    Environment(tolerance=mode).from_string(src).render()
+                except BaseException as e:
+                    bad.append((depth, mode.name, type(e).__name__))
+        try:
+            Environment().from_string(src)
+            bad.append((depth, "STRICT", "parsed"))
+        except BlockNestingError:
+            pass
+        except BaseException as e:
+            bad.append((depth, "STRICT", type(e).__name__))
+    return {"violated": bool(bad), "observed": bad[:4], "witness": "nesting-guard"}
+'''
 
 not_covered("C03", "non-Liquid exceptions escaping in lax mode are C02's", "custom tags", "tokenizer errors (outside the quantifier: sources the lexer accepts)",
             "Parser._parse/parse_block loops are covered by the bounded check and by Tag.get_node's contract, not by their own symbolic contract (generator / token-stream loops)")
